@@ -164,3 +164,96 @@ def inv2Line (io : SetIO S) (debug : Bool) (root : String) (rv : Nat) (answers :
   ";;".intercalate (inv2Replay io (ans.length + 5) s req ans [])
 
 end Pubgrub.Diag
+
+namespace Pubgrub.Diag
+open Pubgrub Pubgrub.SolveDriver
+variable {S : Type} [VersionSet S Nat] [DecidableEq S]
+
+def ownedBy (inc : Incompat Pk S Nat String) (p : Pk) : Bool :=
+  match inc.kind with
+  | .fromDependencyOf q _ _ _ => q == p
+  | .noVersions q _ => q == p
+  | .custom q _ _ => q == p
+  | _ => false
+
+/-- the partial solution restricted to the assignments of level ≤ l (the model's own `backtrack`) -/
+def restrictPS (ps : PartialSolution Pk S Nat Nat) (l : Nat) : Option (PartialSolution Pk S Nat Nat) :=
+  match ps.backtrack l with
+  | .ok r => some r
+  | .error _ => none
+
+/-- candidate Inv-Own: the clauses owned by a decided package are contradicted at every level from its
+decision level up -/
+def checkOwn (st : State Pk S Nat String Nat) : List String :=
+  let ps := st.ps
+  let dl := ps.currentDecisionLevel
+  (List.zip (List.range dl) (ps.assignments.take dl)).flatMap fun (i, (p, _)) =>
+    let ids := (SmallMap.get st.incompatibilities p).getD []
+    (List.range' (i + 1) (dl - i)).flatMap fun l =>
+      match restrictPS ps l with
+      | none => [s!"restrict-failed:{l}"]
+      | some psl =>
+        ids.flatMap fun id =>
+          match st.store[id]? with
+          | none => [s!"bad-id:{id}"]
+          | some inc =>
+            if ownedBy inc p then
+              match psl.relation inc with
+              | .contradicted _ => []
+              | _ => [s!"own-not-contradicted:{p}@level{l}:I{id}"]
+            else []
+
+/-- candidate cache soundness -/
+def checkCache (st : State Pk S Nat String Nat) : List String :=
+  st.contradicted.flatMap fun (id, dlc) =>
+    if dlc > st.ps.currentDecisionLevel then [s!"cache-level-above:{id}"] else
+    match restrictPS st.ps dlc, st.store[id]? with
+    | some psl, some inc =>
+      (match psl.relation inc with
+        | .contradicted _ => []
+        | _ => [s!"cache-not-contradicted:I{id}@{dlc}"])
+    | _, _ => [s!"cache-bad:{id}"]
+
+/-- candidate index completeness: every external clause owned by p is indexed under p, itself or through
+a merged clause with the same dependency and a larger dependent set -/
+def checkIndexComplete (st : State Pk S Nat String Nat) : List String :=
+  (List.zip (List.range st.store.length) st.store).flatMap fun (id, inc) =>
+    match inc.kind with
+    | .fromDependencyOf p s q t =>
+      let ids := (SmallMap.get st.incompatibilities p).getD []
+      if ids.any (fun id' => match st.store[id']? with
+          | some inc' => (match inc'.kind with
+            | .fromDependencyOf p' s' q' t' => p' == p && q' == q && decide (t' = t) && VersionSet.subsetOf s s'
+            | _ => false)
+          | none => false) then [] else [s!"dep-clause-not-indexed:I{id}"]
+    | .custom p _ _ | .noVersions p _ =>
+      if ((SmallMap.get st.incompatibilities p).getD []).contains id then [] else [s!"owned-clause-not-indexed:I{id}"]
+    | _ => []
+
+def inv3Replay (io : SetIO S) : (n : Nat) → St S → Rq S → List String → List String → List String
+  | 0, _, _, _, out => out
+  | n + 1, s, req, answers, out =>
+    match resultText io req with
+    | some _ => out
+    | none =>
+      match answers with
+      | [] => out
+      | a :: rest =>
+        match parseAnswer io a with
+        | none => out
+        | some ans =>
+          let (s', req') := Solver.step s ans
+          let out := match req' with
+            | .pick _ | .solution _ =>
+              let bad := checkOwn s'.st ++ checkCache s'.st ++ checkIndexComplete s'.st
+              if bad.isEmpty then out ++ ["ok"] else out ++ [",".intercalate bad ++ " @ " ++ psSnapshot io s'.st.ps]
+            | _ => out
+          inv3Replay io n s' req' rest out
+
+def inv3Line (io : SetIO S) (debug : Bool) (root : String) (rv : Nat) (answers : String) : String :=
+  let (s, req) := Solver.start (P := Pk) (S := S) (V := Nat) (M := String) (Pr := Nat) (E := String)
+    debug 1000000 root rv
+  let ans := if answers == "" then [] else answers.splitOn ";;"
+  ";;".intercalate (inv3Replay io (ans.length + 5) s req ans [])
+
+end Pubgrub.Diag
